@@ -6,7 +6,7 @@ PYTHONPATH pointing at the scratch tree.  Results go to seeded/<id>/result.json 
 import argparse, glob, json, os, shutil, subprocess, sys, time
 
 ROOT = os.path.dirname(os.path.dirname(os.path.abspath(__file__)))
-SCRATCH = '/tmp/bubus_seeded'
+SCRATCH = f'/tmp/bubus_seeded_{os.getpid()}'  # per process: two runs must never share a worktree
 PY = '/venv/bin/python'
 
 
@@ -37,7 +37,7 @@ def main():
         assert r.returncode == 0, r.stderr
         out = {'seed': sid, 'property': prop, 'checks': {}}
         try:
-            env = dict(os.environ, PYTHONPATH=SCRATCH, VERIF_EVIDENCE_DIR='/tmp/seeded_evidence')
+            env = dict(os.environ, PYTHONPATH=SCRATCH, VERIF_EVIDENCE_DIR=f'/tmp/seeded_evidence_{os.getpid()}')
             demo = os.path.join(d, 'demo.py')
             r0 = sh(PY, demo, env=env, cwd=SCRATCH, timeout=300)
             out['demo_without_change'] = r0.returncode
@@ -70,7 +70,7 @@ def main():
                 prev = json.load(open(rp))
             if 'suite_with_change' in prev and 'suite_with_change' not in out:
                 out['suite_with_change'] = prev['suite_with_change']
-            out['how'] = 'tools/seeded.py: patch applied to a scratch git worktree of /repo HEAD (/tmp/bubus_seeded), demo.py run before and after applying it, repository suite run with it (pytest -q), registered check(s) run with PYTHONPATH=<scratch> at tier ' + a.tier
+            out['how'] = 'tools/seeded.py: patch applied to a scratch git worktree of /repo HEAD (/tmp/bubus_seeded_<pid>), demo.py run before and after applying it, repository suite run with it (pytest -q), registered check(s) run with PYTHONPATH=<scratch> at tier ' + a.tier
             json.dump(out, open(rp, 'w'), indent=1)
             matrix[sid] = {'property': prop, 'demo': [out.get('demo_without_change'), out.get('demo_with_change')], 'checks': {p: v['status'] for p, v in out['checks'].items()}}
     json.dump(matrix, open(mp, 'w'), indent=1, sort_keys=True)
